@@ -438,7 +438,7 @@ template <typename T> struct Spec
     bool force_acc = false;
     Integrand<T> f; Map<T> map;
     bool builtin = true; int mode = 0; T target = T(); std::vector<bool> script;
-    std::string filename; bool keepfile = false; bool cbbase = false; bool cbref = false; int subcomm = 0; int ofmt = 0; bool iexc = false; int coutfmt = 0; bool churn = false; bool reuse = false;
+    std::string filename; bool keepfile = false; bool cbbase = false; bool cbref = false; int subcomm = 0; int ofmt = 0; bool iexc = false; int coutfmt = 0; bool churn = false; bool reuse = false; bool rbbase = false; bool noseek = false;
 };
 
 #ifdef VERIF_MPI
@@ -489,7 +489,7 @@ template <typename T, typename C, typename MkMpi> Sx run_mpi_op(Spec<T> const& s
         rk.add(cbs);
         if (base.trace) { Sx ev = Sx::list({Sx::sym("events")}); for (auto const& e : ctxs[r].events) ev.add(e); rk.add(ev); }
         Sx co = Sx::list({Sx::sym("coll")});
-        for (auto const& c : rep.collectives[r]) co.add(Sx::list({Sx::num(static_cast<std::uint64_t>(c.count)), Sx::num(c.type == MPI_FLOAT || c.type == MPI_DOUBLE || c.type == MPI_LONG_DOUBLE ? 0 : 1)}));
+        for (auto const& c : rep.collectives[r]) co.add(Sx::list({Sx::num(static_cast<std::uint64_t>(c.count)), Sx::num(c.type == MPI_FLOAT || c.type == MPI_DOUBLE || c.type == MPI_LONG_DOUBLE ? 0 : (c.type == MPI_UNSIGNED_LONG || c.type == MPI_UNSIGNED_LONG_LONG) ? 1 : 100 + c.type)}));
         rk.add(co);
         rk.add(Sx::list({Sx::sym("dump"), e_chk<T>(out[r])}));
         res.add(rk);
@@ -499,6 +499,23 @@ template <typename T, typename C, typename MkMpi> Sx run_mpi_op(Spec<T> const& s
     return res;
 }
 #endif
+
+// a stream buffer that can only be read forward (a pipe, a socket, a decompressor): no seekoff / seekpos, one character of put-back
+struct pipe_buf : std::streambuf
+{
+    std::string data; std::size_t pos = 0; char cur = 0;
+    explicit pipe_buf(std::string const& s) : data(s) {}
+    int_type underflow() override
+    {
+        if (pos >= data.size()) return traits_type::eof();
+        cur = data[pos++]; setg(&cur, &cur, &cur + 1);
+        return traits_type::to_int_type(cur);
+    }
+};
+template <typename C> struct base_of;
+template <typename T> struct base_of<hep::plain_chkpt_with_rng<script_engine, T>> { typedef hep::plain_chkpt<T> type; };
+template <typename T> struct base_of<hep::vegas_chkpt_with_rng<script_engine, T>> { typedef hep::vegas_chkpt<T> type; };
+template <typename T> struct base_of<hep::multi_channel_chkpt_with_rng<script_engine, T>> { typedef hep::multi_channel_chkpt<T> type; };
 
 // the state a user's stream may be in when it is handed to the library (bit set): 1 fixed, 2 scientific (3 = both: hexfloat),
 // 4 precision 3, 8 precision 30, 16 showpoint, 32 width 14 with fill '*' (applies to the first item only), 64 left, 128 boolalpha
@@ -516,6 +533,7 @@ inline void user_format(std::ios_base& s, int f)
 template <typename T, typename C, typename Mk, typename MkMpi> Sx run_ops(Spec<T>& sp, Sx const& ops, C chk, Mk run_one, MkMpi run_mpi_one)
 {
     Sx out = Sx::list();
+    C older(chk);
     for (auto const& op : ops.L_())
     {
         std::string const& o = op.at(0).Y_();
@@ -524,6 +542,8 @@ template <typename T, typename C, typename Mk, typename MkMpi> Sx run_ops(Spec<T
             // what users do with checkpoints between operations: copy construction, move construction, copy and move assignment,
             // self-assignment through a reference, swap - none of it may change what the checkpoint holds
             C a(chk); C b(std::move(a)); C c = chk; c = b; C& self = c; c = self; C d(chk); std::swap(c, d); chk = std::move(d);
+            // assignment onto an object that holds something else (the checkpoint as it was one operation ago, or the initial one)
+            C x(older); x = chk; older = chk; chk = x;
         }
         if (o == "run")
         {
@@ -544,7 +564,12 @@ template <typename T, typename C, typename Mk, typename MkMpi> Sx run_ops(Spec<T
 #endif
         else if (o == "rollback")
         {
-            try { chk.rollback(op.at(1).N_()); out.add(Sx::list({Sx::sym("rollback"), Sx::sym("ok")})); }
+            try
+            {
+                // (rbbase: through a reference to the checkpoint's base class without the engine, as a helper that is not a template would)
+                if (sp.rbbase) static_cast<typename base_of<C>::type&>(chk).rollback(op.at(1).N_()); else chk.rollback(op.at(1).N_());
+                out.add(Sx::list({Sx::sym("rollback"), Sx::sym("ok")}));
+            }
             catch (std::out_of_range const&) { out.add(Sx::list({Sx::sym("rollback"), Sx::sym("throw")})); }
         }
         else if (o == "dump") out.add(Sx::list({Sx::sym("dump"), e_chk<T>(chk)}));
@@ -552,7 +577,10 @@ template <typename T, typename C, typename Mk, typename MkMpi> Sx run_ops(Spec<T
         else if (o == "reload")
         {
             std::ostringstream t; user_format(t, sp.ofmt); chk.serialize(t);
-            std::istringstream in(t.str());
+            std::istringstream seekable(t.str());
+            pipe_buf pipe(t.str());
+            std::istream piped(&pipe);
+            std::istream& in = sp.noseek ? piped : static_cast<std::istream&>(seekable);     // (noseek: a stream that cannot seek, like a pipe)
             if (sp.iexc) in.exceptions(std::ios::failbit | std::ios::badbit);     // a user who wants read errors reported by exceptions
             C n = reload<T>(chk, in);
             if (in.fail()) { out.add(Sx::list({Sx::sym("reload"), Sx::sym("stream_failed")})); break; }
@@ -693,15 +721,18 @@ template <typename T> Sx run_case(std::string const& cmd, Sx const& a)
     sp.coutfmt = static_cast<int>(num("coutfmt", 0));
     sp.churn = num("churn", 0) != 0;
     sp.reuse = num("reuse", 0) != 0;
+    sp.rbbase = num("rbbase", 0) != 0;
+    sp.noseek = num("noseek", 0) != 0;
     // the state the program left std::cout in before it handed control to the library (restored when the case ends)
     struct CoutGuard
     {
         std::ios_base::fmtflags flags; std::streamsize prec;
         CoutGuard() : flags(std::cout.flags()), prec(std::cout.precision()) {}
-        ~CoutGuard() { std::cout.flags(flags); std::cout.precision(prec); }
+        ~CoutGuard() { std::cout.exceptions(std::ios::goodbit); std::cout.clear(); std::cout.flags(flags); std::cout.precision(prec); }
     } cout_guard;
     user_format(std::cout, sp.coutfmt);
     if (sp.coutfmt & 256) std::cout.precision(std::numeric_limits<T>::max_digits10);
+    if (sp.coutfmt & 512) std::cout.exceptions(std::ios::badbit | std::ios::failbit);        // a user who wants to notice a full disk behind a redirected stdout
     Sx const& ops = a.find("ops")->at(1);
     Sx const& ck = a.find("chk")->at(1);
     bool const with_dists = !sp.dists.empty() || sp.force_acc;
